@@ -48,7 +48,17 @@ pub struct ErrorObject<'a> {
 	message: StdCow<'a, str>,
 	/// Optional data
 	#[serde(skip_serializing_if = "Option::is_none")]
+	#[serde(default, deserialize_with = "deserialize_data")]
 	data: Option<StdCow<'a, RawValue>>,
+}
+
+/// Deserialize the `data` member if it is present, `null` is a value like any other and not the same as absent.
+fn deserialize_data<'de, 'a, D>(deserializer: D) -> Result<Option<StdCow<'a, RawValue>>, D::Error>
+where
+	D: Deserializer<'de>,
+{
+	let data: Box<RawValue> = Deserialize::deserialize(deserializer)?;
+	Ok(Some(StdCow::Owned(data)))
 }
 
 impl<'a> ErrorObject<'a> {
